@@ -1,0 +1,17 @@
+//go:build verif
+
+package v2
+
+import (
+	prometheus_model "github.com/prometheus/common/model"
+
+	"github.com/prometheus/alertmanager/pkg/labels"
+)
+
+// VerifParseFilter exposes the API filter construction path (parseFilter).
+func VerifParseFilter(filter []string) ([]*labels.Matcher, error) { return parseFilter(filter) }
+
+// VerifAlertMatchesFilterLabels exposes the API alert filter evaluation (alertMatchesFilterLabels).
+func VerifAlertMatchesFilterLabels(a *prometheus_model.Alert, matchers []*labels.Matcher) bool {
+	return alertMatchesFilterLabels(a, matchers)
+}
